@@ -321,7 +321,8 @@ class C02(Prop):
 # ------------------------------------------------------------------ key histories (C03, C06, C07, C11)
 def gen_key_history(g, nfmt=4, length=None, with_maps=True, mseq=None):
     """a media playlist whose interest is its key/map/segment event sequence"""
-    fmts = g.r.sample(gen.KEYFORMATS, min(nfmt, len(gen.KEYFORMATS)))
+    # absent and explicit identity are the same format: keep both spellings in most histories
+    fmts = ([None, "identity"] + g.r.sample(gen.KEYFORMATS[2:], max(0, nfmt - 2))) if g.chance(0.7) else g.r.sample(gen.KEYFORMATS, min(nfmt, len(gen.KEYFORMATS)))
     n = length if length is not None else g.r.randint(1, 10)
     a = {"target": 10, "mseq": mseq, "dseq": None, "ptype": None, "iframes": False, "indep": False, "start": None,
          "endlist": g.chance(0.5), "version_tag": None, "unknown": [], "d17": False, "segs": []}
@@ -336,7 +337,11 @@ def gen_key_history(g, nfmt=4, length=None, with_maps=True, mseq=None):
             if eff:
                 pending.append(dict(g.pick(eff)))
         elif ev < 4:
-            pending.append(gen.gen_key(g, fmts))
+            used = [k for s_ in a["segs"] for k in s_["keys_before"] if k is not None] + [k for k in pending if k is not None]
+            if used and g.chance(0.35):
+                pending.append(dict(g.pick(used)))          # an earlier key again, byte for byte (it may have been replaced meanwhile)
+            else:
+                pending.append(gen.gen_key(g, fmts))
         elif ev < 5:
             pending.append(None)
         elif ev < 6 and with_maps and mp is None:
@@ -648,11 +653,16 @@ class C08(Prop):
             "from {0,1,2^32,2^62} and random; exhaustive for chains up to a length bound, random beyond; plus EXT-X-MAP byte ranges; "
             "oracle: accepted iff the chain resolves, ranges as resolved, text carries explicit offsets that re-parse to the same ranges")
 
-    def _case(self, idp, n, chain, maprange=None):
+    def _case(self, idp, n, chain, maprange=None, maps=None):
+        """maps: {segment index: (uri, None | (len, off|None))} — EXT-X-MAP tags anywhere, possibly on the segment's own resource"""
         lines = ["#EXTM3U", "#EXT-X-TARGETDURATION:10"]
+        maps = dict(maps or {})
+        if maprange is not None:
+            maps[0] = ("init.mp4", maprange)
         for k, (uri, r) in enumerate(chain):
-            if k == 0 and maprange is not None:
-                lines.append('#EXT-X-MAP:URI="init.mp4",BYTERANGE="%s"' % ("%d@%d" % maprange if maprange[1] is not None else "%d" % maprange[0]))
+            if k in maps:
+                muri, mr = maps[k]
+                lines.append('#EXT-X-MAP:URI="%s"%s' % (muri, "" if mr is None else ',BYTERANGE="%s"' % ("%d@%d" % mr if mr[1] is not None else "%d" % mr[0])))
             if r is not None:
                 lines.append("#EXT-X-BYTERANGE:%d%s" % (r[0], "" if r[1] is None else "@%d" % r[1]))
             lines.append("#EXTINF:5,")
@@ -660,7 +670,7 @@ class C08(Prop):
         exp = resolve_ranges(chain)
         if exp is not None and any(e is not None and e[1] > 2 ** 64 - 1 for e in exp):
             exp = "overflow"
-        return mk(idp, n, "media", hx("\n".join(lines) + "\n"), exp=exp, maprange=maprange, nlen=len(chain))
+        return mk(idp, n, "media", hx("\n".join(lines) + "\n"), exp=exp, maps={str(k): v for k, v in maps.items()}, nlen=len(chain))
 
     def cases(self, tier, seed):
         g = gen.G(seed * 1000003 + 8)
@@ -686,7 +696,38 @@ class C08(Prop):
                     r = (g.pick(vals + [g.small(10 ** 6)]), None)
                 chain.append((uri, r))
             mr = (g.small(1000), g.pick([g.small(10 ** 6), 0, None])) if g.chance(0.3) else None
-            out.append(self._case("r", k, chain, mr))
+            # maps anywhere, also on the resource of the segment itself, their ranges touching the previous sub-range
+            maps = {}
+            res = resolve_ranges(chain)
+            for j, (uri, r) in enumerate(chain):
+                if g.chance(0.25) and not (j == 0 and mr is not None):
+                    prev_end = res[j - 1][1] if (res and j > 0 and res[j - 1] is not None) else g.small(1000)
+                    off = g.pick([prev_end, prev_end, 0, g.small(10 ** 6), None])
+                    ln = g.pick([0, 1, 700, g.small(10 ** 6)])
+                    if off is None or off + ln < 2 ** 64:
+                        maps[j] = (g.pick([uri, uri, "init.mp4", "a.ts"]), (ln, off) if g.chance(0.8) else None)
+            out.append(self._case("r", k, chain, mr, maps))
+        # chains that resolve by construction (an offset is omitted only behind a sub-range of the same resource), with EXT-X-MAP tags on
+        # the same resource whose range touches the previous sub-range: the map must not disturb the continuation
+        for k in range(count_tier(tier, 800, 20000)):
+            chain, maps = [], {}
+            prev = None
+            for j in range(g.r.randint(2, 8)):
+                uri = prev[0] if (prev is not None and g.chance(0.7)) else g.pick(["a.ts", "b.ts", "main.mp4"])
+                if prev is not None and prev[0] == uri and g.chance(0.6):
+                    r = (g.pick([1, 1000, g.small(10 ** 6)]), None)
+                    start = prev[1]
+                elif g.chance(0.8):
+                    r = (g.pick([1, 1000, g.small(10 ** 6)]), g.pick([0, 719, g.small(10 ** 6)]))
+                    start = r[1]
+                else:
+                    r, start = None, None
+                if g.chance(0.4):
+                    pe = prev[1] if prev is not None else 0
+                    maps[j] = (g.pick([uri, uri, "init.mp4"]), g.pick([(700, pe), (g.small(1000), pe), (700, 0), (5, None), None]))
+                chain.append((uri, r))
+                prev = (uri, start + r[0]) if r is not None else None
+            out.append(self._case("v", k, chain, None, maps))
         return out
 
     def judge(self, run, c, m, i):
@@ -713,12 +754,14 @@ class C08(Prop):
         explicit = all("@" in l for l in text.split("\n") if l.startswith("#EXT-X-BYTERANGE:"))
         re_ = field(node, "re")
         re_ok = re_ is not None and re_[1] == "ok" and rng(re_[2:3] and ["x", re_[2]]) == got
-        mr = c["meta"]["maprange"]
         map_ok = True
-        if mr is not None:
-            s0 = media_segs(first_dump(node))[0]
-            # EXT-X-MAP BYTERANGE is reported as written: an omitted offset stays omitted
-            map_ok = unparse(field(field(s0, "map")[1], "range")) == ("(range (r %d %d))" % (mr[1], mr[1] + mr[0]) if mr[1] is not None else "(range (r none %d))" % mr[0])
+        segs_ = media_segs(first_dump(node))
+        for kk, (muri, mr) in c["meta"]["maps"].items():
+            mnode = field(segs_[int(kk)], "map")[1]
+            # EXT-X-MAP URI and BYTERANGE are reported as written: an omitted offset stays omitted
+            want_r = "(range none)" if mr is None else ("(range (r %d %d))" % (mr[1], mr[1] + mr[0]) if mr[1] is not None else "(range (r none %d))" % mr[0])
+            if mnode == "none" or unparse(field(mnode, "range")) != want_r or decode_s(field(mnode, "uri")[1]) != muri:
+                map_ok = False
         ok = got == want and explicit and re_ok and map_ok
         return {"agree": agree, "ok": ok, "nontrivial": any(e is not None for e in exp),
                 "detail": "" if ok else "ranges want=%s got=%s explicit=%s reparse=%s map=%s" % (want, got, explicit, re_ok, map_ok), "stats": {"accept": 1}}
@@ -1003,6 +1046,33 @@ class C12(Prop):
                 t, ad = transform(t, g, kind)
                 added += len(ad)
             out.append(mk("t", n, op, hx(t), role="transformed", partner="b%d" % n, added=added))
+        # directed: on every attribute-list tag, every attribute name that only OTHER tags define, with values that would be
+        # invalid there, is an unrecognised attribute: the tag parses as without it
+        canon = {"key": ("ExtXKey", '#EXT-X-KEY:METHOD=AES-128,URI="k"'), "map": ("ExtXMap", '#EXT-X-MAP:URI="i"'),
+                 "daterange": ("ExtXDateRange", '#EXT-X-DATERANGE:ID="d"'), "start": ("ExtXStart", "#EXT-X-START:TIME-OFFSET=1.5"),
+                 "media": ("ExtXMedia", '#EXT-X-MEDIA:TYPE=AUDIO,GROUP-ID="g",NAME="n"'), "streaminf": ("VariantStream", "#EXT-X-STREAM-INF:BANDWIDTH=1"),
+                 "iframe": ("VariantStream", '#EXT-X-I-FRAME-STREAM-INF:BANDWIDTH=1,URI="u"'), "sdata": ("ExtXSessionData", '#EXT-X-SESSION-DATA:DATA-ID="i",VALUE="v"')}
+        k = len(out)
+        for kind, (ty, line) in canon.items():
+            tail = "\nu.m3u8" if kind == "streaminf" else ""
+            out.append(mk("fb", k, "tag", ty, hx(line + tail), role="base", nontrivial=True))
+            base_id = "fb%d" % k
+            k += 1
+            for name in gen.FOREIGN_ATTR_NAMES + ["METHOD", "X"]:
+                if name in gen.ATTR_NAMES[kind] or (kind == "key" and name == "METHOD"):
+                    continue
+                for val in ["VARIABLE", '"25"', "-1", "0xFF", "NONE", '"a,b"', "nan", ""]:
+                    styled = line + "," + name + "=" + val if g.chance(0.5) else line.split(":", 1)[0] + ":" + name + "=" + val + "," + line.split(":", 1)[1]
+                    out.append(mk("fs", k, "tag", ty, hx(styled + tail), role="foreign", partner=base_id, added=0))
+                    k += 1
+        none_line = "#EXT-X-KEY:METHOD=NONE"
+        out.append(mk("fb", k, "tag", "ExtXKey", hx(none_line), role="base", nontrivial=True))
+        base_id = "fb%d" % k
+        k += 1
+        for styled in ["#EXT-X-KEY:METHOD = NONE", "#EXT-X-KEY: METHOD=NONE ", "#EXT-X-KEY:METHOD=NONE,FOO=1", "#EXT-X-KEY:BANDWIDTH=x,METHOD=NONE",
+                       "#EXT-X-KEY:\u00a0METHOD\u2003=\tNONE", '#EXT-X-KEY:METHOD=NONE,X-Y="a,b"']:
+            out.append(mk("fs", k, "tag", "ExtXKey", hx(styled), role="foreign", partner=base_id, added=0))
+            k += 1
         return out
 
     @staticmethod
@@ -1014,6 +1084,13 @@ class C12(Prop):
         if c["meta"]["role"] == "base":
             return {"agree": agree, "ok": None, "nontrivial": False}
         base = run.impl.get(c["meta"]["partner"])
+        if c["meta"]["role"] == "foreign":
+            if not (base or "").startswith("ok "):
+                return {"agree": agree, "ok": None, "nontrivial": False}
+            if not (i or "").startswith("ok "):
+                return {"agree": agree, "ok": False, "nontrivial": True, "detail": "a tag with an attribute it does not define (the name belongs to another tag) is rejected: " + res_kind(i), "stats": {"foreign_attr": 1}}
+            ok = unparse(parse_sexp(base)[1][1]) == unparse(parse_sexp(i)[1][1])
+            return {"agree": agree, "ok": ok, "nontrivial": True, "detail": "" if ok else "an unrecognised attribute changes the parsed tag", "stats": {"foreign_attr": 1}}
         bn, node = mres(base), mres(i)
         if bn is None:
             return {"agree": agree, "ok": None, "nontrivial": False}
@@ -1074,6 +1151,21 @@ class C15(Prop):
                 out.append(mk("y", n, "master", hx(text), seq=seq, hdr=True, which="master"))
                 n += 1
         g = gen.G(seed * 1000003 + 15)
+        # the same letters with white space around the line (every White_Space code point str::trim removes): tag position is
+        # decided after trimming, so nothing changes
+        pads = ["", " ", "\t", "\x0b", "\x0c", "\u0085", "\u00a0", "\u1680", "\u2003", "\u2028", "\u2029", "\u202f", "\u205f", "\u3000", "\r"]
+        for x in range(len(REPR_LINES)):
+            for pl in pads:
+                for pr in pads:
+                    if pl == "" and pr == "":
+                        continue
+                    # a valid neighbour so that acceptance is possible at all: TARGETDURATION (7) for media, nothing for master
+                    # (the padded line must also occur in the middle: the end of the whole text is trimmed with the EXTM3U tag)
+                    for seq in ((x,), (7, x, 23), (x, 23)):
+                        text = "#EXTM3U\n" + "".join((pl + REPR_LINES[y] + pr if j == seq.index(x) else REPR_LINES[y]) + "\n" for j, y in enumerate(seq))
+                        out.append(mk("x", n, "media", hx(text), seq=seq, hdr=True, which="media"))
+                        out.append(mk("y", n, "master", hx(text), seq=seq, hdr=True, which="master"))
+                        n += 1
         for k in range(count_tier(tier, 300, 3000)):
             gen.random_style(g)
             text = gen.render_media(gen.gen_media(g), g) if k % 2 else gen.render_master(gen.gen_master(g), g)
@@ -1608,6 +1700,23 @@ class C13(Prop):
             for seq in itertools.product(pairs, repeat=L):
                 out.append(mk("m", n, "master", hx(master_text([], [], list(seq), None)), exp=len(set(seq)) == len(seq), kind="accept"))
                 n += 1
+        # sizes: N renditions (one per group id) and one variant referencing the last / a missing one; N variants; N session data
+        for N in list(range(0, 70)) + [127, 128, 129, 255, 256, 257]:
+            for ty in types:
+                media = [(ty, "g%d" % j) for j in range(N)]
+                key = {"AUDIO": "audio", "VIDEO": "video", "SUBTITLES": "subs", "CLOSED-CAPTIONS": "cc"}[ty]
+                for ref in (["g%d" % (N - 1), "g0", "missing"] if N else ["missing"]):
+                    v = {"kind": "s", "audio": None, "video": None, "subs": None, "cc": None}
+                    v[key] = ref
+                    out.append(mk("m", n, "master", hx(master_text(media, [v], [], None)), exp=master_consistent(media, [v], []), kind="accept"))
+                    n += 1
+            media = [("AUDIO", "g0")]
+            variants = [{"kind": "s", "audio": "g0", "video": None, "subs": None, "cc": None} for _ in range(N)]
+            out.append(mk("m", n, "master", hx(master_text(media, variants, [], None)), exp=True, kind="accept")); n += 1
+            sdata = [("id%d" % j, None) for j in range(N)]
+            out.append(mk("m", n, "master", hx(master_text([], [], sdata, None)), exp=True, kind="accept")); n += 1
+            if N:
+                out.append(mk("m", n, "master", hx(master_text([], [], sdata + [("id%d" % (N - 1), None)], None)), exp=False, kind="accept")); n += 1
         # exhaustive: CLOSED-CAPTIONS of up to 4 variants over {absent, g1, NONE} with the group g1 defined
         for L in range(1, 5):
             for seq in itertools.product([None, "g1", "NONE"], repeat=L):
@@ -1763,7 +1872,7 @@ class C14(Prop):
                 for nm in present:
                     key = nm
                     if nm == "X-CLIENT":
-                        key = g.pick(["X-CLIENT", "X-CLIENT", "X-client", "X-CLI_ENT"])
+                        key = g.pick(["X-CLIENT", "X-CLIENT", "X-client", "X-CLI_ENT", "X-CLIENT", "X-CLI\u0663NT", "X-A\u00b2", "X-\uff11", "X-CLI\u00c9NT", "X-CLI ENT", "X-\u2167"])
                     attrs.append((key, vals[nm]))
                 g.r.shuffle(attrs)
                 neg = any(vals.get(k, "1").startswith("-") for k in ("DURATION", "PLANNED-DURATION"))
